@@ -52,6 +52,15 @@ tie for `Type2Tag._format`), and side effects on the caller's buffer (C14: the t
 `+=` on a caller-owned bytearray).  A seed whose patch no longer applies to the current HEAD (because a later `fix:`
 commit rewrote the same lines) keeps the result recorded when it was run.
 
+Round 4 (`Cxx-dN`, two per property: second use of a long-lived object, shutdown paths, protocol maxima, two layers
+disagreeing on a value, argument types, lock scope) was first missed in 13 of 40 cases - the "second use" class was a
+systematic gap, the checks had mostly exercised fresh objects.  Added in response: histories on ONE object (C03 sector
+state, C05 successive connections, C16 commands after a failed command, C19 re-activation - which exposed the
+genuine defect repaired by `f9140f7`), simulated clocks for deadlines (C07 release phase, C16 slow cards), the
+critical-section shape of `terminate()` as a static obligation (C09), argument-type and `timeout` families (C10, C13),
+field boundaries such as a card key version of FFFFh (C20), the chip/driver split of CRC responsibility (C14), and -
+because seed C07-d2 made two checks run for ever - the hang watchdog described under "Changes".
+
 | seed | change | quick check | how |
 |---|---|---|---|
 ''' + '\n'.join(rows) + '\n\n'
